@@ -200,7 +200,12 @@ def run_job(spec):
             if po.prefer:
                 model0 = preferred_model(ctx, po.prefer, model0)
             # --- obligations ---------------------------------------------------------
-            for label, prop in po.obligations:
+            wraps = {}
+            for dtn, cnd in getattr(ctx, 'wrap_obligations', []):
+                wraps.setdefault(dtn, []).append(cnd)
+            extra_obs = [('no-silent-integer-wrap: every value stored into a %s array fits it' % dtn, core.sand(*cs))
+                         for dtn, cs in sorted(wraps.items())] if po.exc is None else []
+            for label, prop in list(po.obligations) + extra_obs:
                 res['obligations'] += 1
                 status, model = ctx.prove(prop)
                 if status == 'proved':
